@@ -1,12 +1,136 @@
-(* C03 - line-interval tracker = plain array.  Only statements closed by [exact] and their assumptions. *)
+(* C03 - the line-interval tracker (internal/burndown/file.go: NewFile, Update, updateTime, Len, flatten)
+   is equivalent to a plain array of per-line values.
+   Only statements closed by [exact] and their assumptions; the proofs are in coq/theories/File.
+
+   Vocabulary (coq/theories/File/Model.v and Spec.v, all executable):
+     update t pos ins del s : result (state * list (cur, prev, delta))    File.Update on the node list s
+     new_file t n, run_file t0 n0 ops                                      NewFile, NewFile followed by Updates
+     flatten s, len s                                                      File.flatten, File.Len
+     arr_update t pos ins del a = firstn pos a ++ repeat t ins ++ skipn (pos+del) a     the plain array edit
+     hist v a = number of lines of a with value v; sumv v ds = sum of the reported deltas with previousTime = v
+     WF s = first key 0, keys strictly increasing, last value TreeEnd, Len <= 2^32-1  (keys are uint32)
+     is_mark v = (v land TreeMergeMark =? TreeMergeMark); values are opaque uint32 (tick | author << 14)
+     validb t pos ins del a: the domain, stated on the array (C03_domain below spells it out), incl. the
+       uint32 side condition "the new length fits a uint32" and "a deleted line carrying the merge mark
+       carries the operation's own tick" (otherwise updateTime panics by design). *)
 From Coq Require Import List ZArith.
-From Herc Require Import File.Model File.Spec File.Unrepaired.
+From Herc Require Import File.Model File.Spec File.Sequences File.Unrepaired.
 Import ListNotations.
 Open Scope Z_scope.
 
+(* the domain predicate and the well-formedness check say what they should *)
+Theorem C03_domain : forall t pos ins del a,
+  validb t pos ins del a = true <->
+  (0 <= t < MaxU32 /\ 0 <= pos /\ 0 <= ins /\ 0 <= del /\ pos + del <= alen a /\
+   alen a + ins - del <= MaxU32 /\
+   forall v, In v (firstn (Z.to_nat del) (skipn (Z.to_nat pos) a)) -> is_mark v = true -> v = t).
+Proof. exact validb_spec. Qed.
+Print Assumptions C03_domain.
+
+Theorem C03_wfb : forall s, wfb s = true <-> WF s.
+Proof. exact wfb_WF. Qed.
+Print Assumptions C03_wfb.
+
+(* one operation: same lines, same length as the plain array; well-formedness is preserved *)
+Theorem C03_update_refines : forall t pos ins del s,
+  WF s -> validb t pos ins del (flatten s) = true ->
+  exists s' ds, update t pos ins del s = Ok (s', ds) /\ WF s' /\
+    flatten s' = arr_update t pos ins del (flatten s) /\ len s' = len s + ins - del.
+Proof. exact update_refines_valid. Qed.
+Print Assumptions C03_update_refines.
+
+(* the running histogram: per value, the reported deltas are exactly the change of the array's histogram *)
+Theorem C03_update_deltas : forall t pos ins del s s' ds,
+  WF s -> validb t pos ins del (flatten s) = true -> is_mark t = false ->
+  update t pos ins del s = Ok (s', ds) ->
+  forall v, hist v (flatten s') = hist v (flatten s) + sumv v ds.
+Proof. exact update_deltas_valid. Qed.
+Print Assumptions C03_update_deltas.
+
+(* operations stamped with the merge mark report nothing *)
+Theorem C03_update_silent_on_mark : forall t pos ins del s s' ds,
+  WF s -> validb t pos ins del (flatten s) = true -> is_mark t = true ->
+  update t pos ins del s = Ok (s', ds) -> ds = [].
+Proof. exact update_silent_valid. Qed.
+Print Assumptions C03_update_silent_on_mark.
+
+(* out-of-range requests are rejected with a panic, never silently accepted: negative arguments, tick or
+   position or lengths beyond uint32, a position beyond the end, a deletion running past the end *)
+Theorem C03_update_rejects : forall t pos ins del s,
+  WF s ->
+  (t < 0 \/ MaxU32 <= t \/ pos < 0 \/ MaxU32 < pos \/ ins < 0 \/ del < 0 \/ MaxU32 < ins \/ MaxU32 < del \/
+   ((ins <> 0 \/ del <> 0) /\ (len s < pos \/ len s < pos + del))) ->
+  exists c, update t pos ins del s = Panic c.
+Proof. exact update_rejects_prop. Qed.
+Print Assumptions C03_update_rejects.
+
+(* the only request outside [0, Len] that does not panic is the empty one, and it changes nothing *)
+Theorem C03_update_empty_request : forall t pos s,
+  0 <= t < MaxU32 -> 0 <= pos <= MaxU32 -> update t pos 0 0 s = Ok (s, []).
+Proof. exact Rejects.update_noop. Qed.
+Print Assumptions C03_update_empty_request.
+
+(* NewFile *)
+Theorem C03_new_file : forall t0 n0, 0 <= t0 <= MaxU32 -> 0 <= n0 <= MaxU32 ->
+  exists s, new_file t0 n0 = Ok (s, if is_mark t0 then [] else [(t0, t0, n0)]) /\ WF s /\
+    flatten s = repeat t0 (Z.to_nat n0) /\ len s = n0.
+Proof. exact new_file_plain. Qed.
+Print Assumptions C03_new_file.
+
+(* arbitrary operation sequences from NewFile: every reachable state is well formed, its lines and length
+   are those of the plain array, and per value the observers have accumulated exactly the histogram changes
+   of the operations that are not stamped with the merge mark (plus the initial lines) *)
+Theorem C03_sequences : forall t0 n0 ops,
+  0 <= t0 <= MaxU32 -> 0 <= n0 <= MaxU32 ->
+  ops_validb (repeat t0 (Z.to_nat n0)) ops = true ->
+  exists s ds, run_file t0 n0 ops = Ok (s, ds) /\ WF s /\
+    flatten s = arr_run (repeat t0 (Z.to_nat n0)) ops /\
+    len s = alen (arr_run (repeat t0 (Z.to_nat n0)) ops) /\
+    forall v, sumv v ds =
+      (if is_mark t0 then 0 else hist v (repeat t0 (Z.to_nat n0))) + expected_sum v (repeat t0 (Z.to_nat n0)) ops.
+Proof. exact sequences. Qed.
+Print Assumptions C03_sequences.
+
+(* without merge marks: the running histogram kept from the reported deltas IS the histogram of the lines *)
+Theorem C03_sequences_histogram : forall t0 n0 ops,
+  0 <= t0 <= MaxU32 -> 0 <= n0 <= MaxU32 -> is_mark t0 = false -> no_mark_ops ops = true ->
+  ops_validb (repeat t0 (Z.to_nat n0)) ops = true ->
+  exists s ds, run_file t0 n0 ops = Ok (s, ds) /\ forall v, hist v (flatten s) = sumv v ds.
+Proof. exact sequences_histogram. Qed.
+Print Assumptions C03_sequences_histogram.
+
+(* the defect repaired by the F2 fix: on the model of the code before the fix the two witnesses are valid,
+   accepted without a panic, and end with lines that differ from the plain array *)
 Theorem C03_update_refuted_before_fix :
   forall ops, ops = [(1, 2, 3, 0); (1, 1, 0, 3)] \/ ops = [(1, 3, 1, 0); (1, 0, 1, 0); (1, 3, 2, 2)] ->
     ops_validb (repeat 0 3) ops = true /\
     exists s, run_unrepaired ops [(0, 0); (3, TreeEnd)] = Some s /\ flatten s <> arr_run (repeat 0 3) ops.
 Proof. exact update_refuted_before_fix. Qed.
 Print Assumptions C03_update_refuted_before_fix.
+
+(* ---------- non-vacuity ---------- *)
+(* a four-interval state with a packed author; a replacement that deletes across three intervals with the
+   tick of a wholly deleted later interval *)
+Definition ex_state : list (Z * Z) := [(0, 5); (2, 7 + 3 * 16384); (4, 5); (9, TreeEnd)].
+Example C03_ex_wf : WF ex_state.
+Proof. apply wfb_WF. vm_compute. reflexivity. Qed.
+Example C03_ex_valid : validb (7 + 3 * 16384) 1 2 5 (flatten ex_state) = true.
+Proof. vm_compute. reflexivity. Qed.
+Example C03_ex_update :
+  exists s' ds, update (7 + 3 * 16384) 1 2 5 ex_state = Ok (s', ds) /\
+    flatten s' = [5; 49159; 49159; 5; 5; 5] /\ ds = [(49159, 49159, 2); (49159, 5, -1); (49159, 49159, -2); (49159, 5, -2)].
+Proof. eexists. eexists. vm_compute. repeat split. Qed.
+(* rejection: every listed kind of out-of-range request on that state *)
+Example C03_ex_rejects :
+  forallb (fun o => match o with (t, p, i, d) =>
+     match update t p i d ex_state with Panic _ => true | Ok _ => false end end)
+    [(-1, 0, 1, 0); (MaxU32, 0, 1, 0); (1, -1, 1, 0); (1, 10, 1, 0); (1, 9, 0, 1); (1, 3, 0, 7); (1, 0, -1, 0);
+     (1, 0, 0, -1); (1, 0, 4294967296, 0); (1, 0, 0, 4294967296 + 5); (1, 4294967296, 1, 0)] = true.
+Proof. vm_compute. reflexivity. Qed.
+(* a valid sequence with a merge-marked operation and a later deletion of the marked lines with the mark's own tick *)
+Example C03_ex_sequence :
+  ops_validb (repeat 3 (Z.to_nat 6)) [(4, 2, 2, 1); (16383, 0, 3, 2); (16383, 1, 0, 2); (5, 1, 1, 4)] = true.
+Proof. vm_compute. reflexivity. Qed.
+Example C03_ex_mark_silent :
+  exists s ds, update 16383 1 2 3 ex_state = Ok (s, ds) /\ ds = [].
+Proof. eexists. eexists. vm_compute. split; reflexivity. Qed.
